@@ -10,7 +10,8 @@
                       DiagonalReplicated  (vmap over input_axis / output_axis)   → Op.drep
     linop/_matrix.py  MatrixOperator.__call__/adj                                → Op.mat
     linop/_circconv.py CircularConvolve._eval/_adj (signal domain, batch axis)   → circConv / circCorr / Op.circ / Op.circBatch
-    linop/xray/_xray.py  .at[idx].add (drop) / y[idx] (clamp)                    → scatterAddDrop / gatherAt / gatherFill0 / clampIdx
+    linop/xray/_xray.py  .at[idx].add (drop) / .at[idx].get(mode="fill") (repo e359064) → scatterAddDrop / gatherFill0 (Op.scatFill);
+                         the pinned back-projectors `y[idx]` (clamp)             → gatherAt / clampIdx (Op.scatClamp, historical)
     _autograd.py      linear_adjoint (three branches)                            → linearAdjoint
 
   Vectors are size-erased (`Nat → α`, dimensions kept in the operator record), so that no dependent cast
@@ -302,14 +303,15 @@ end spectral
 section scatter
 variable {α : Type} [Add α] [Mul α] [Zero α]
 
-/-- `jnp.where(inds >= 0, inds, ny)`: negative indices are sent off the detector -/
+/-- `jnp.where(i >= 0, i, ny)` / `off(i)`: negative indices are sent off the detector.  Since e359064 this is applied to
+    each bin index separately (`inds`, `inds + 1`; `i0 + da`, `i1 + db`), in the projector and in the back-projector alike. -/
 def fixIdx (ny : Nat) (i : Int) : Nat := if 0 ≤ i then i.toNat else ny
 
 /-- `zeros(ny).at[I].add(w * x)` with JAX's scatter semantics (out-of-bounds updates are dropped) -/
 def scatterAddDrop (np ny : Nat) (I : Nat → Nat) (w : V α) (x : V α) : V α :=
   fun j => if j < ny then sumTo np (fun p => if I p = j then w p * x p else 0) else 0
 
-/-- the true adjoint: gather with out-of-bounds reads giving 0 -/
+/-- `y.at[I].get(mode="fill", fill_value=0) * w` as `back_project` computes it (repo e359064): out-of-bounds reads give 0 -/
 def gatherFill0 (ny : Nat) (I : Nat → Nat) (w : V α) (y : V α) : V α :=
   fun p => if I p < ny then w p * y (I p) else 0
 
@@ -319,17 +321,17 @@ def gatherAt (J : Nat → Nat) (w : V α) (y : V α) : V α := fun p => w p * y 
 /-- JAX's default gather semantics: out-of-bounds indices are clamped -/
 def clampIdx (ny i : Nat) : Nat := if i < ny then i else ny - 1
 
-/-- `y[I] * w` as `back_project` computes it -/
+/-- `y[I] * w` as `back_project` of the PINNED tree computed it (default gather mode: clamp) -/
 def gatherClamp (ny : Nat) (I : Nat → Nat) (w : V α) (y : V α) : V α := gatherAt (fun p => clampIdx ny (I p)) w y
 
-/-- one scatter term of the projector with the back-projector of the code -/
+/-- one scatter term of the projector with the back-projector of the PINNED tree (recorded finding, fixed e359064) -/
 def Op.scatClamp (np ny : Nat) (I : Nat → Nat) (w : V α) : Op α where
   nin := np
   nout := ny
   eval := scatterAddDrop np ny I w
   adj := gatherClamp ny I w
 
-/-- the same term with the exact adjoint -/
+/-- one scatter term of the projector with the back-projector AS CODED (fill-0 gather) -/
 def Op.scatFill (np ny : Nat) (I : Nat → Nat) (w : V α) : Op α where
   nin := np
   nout := ny
@@ -355,7 +357,30 @@ def slabGather (B : Nat) (J : Nat → Nat) (w y : V α) : V α :=
 def slabGatherNoOffset (B : Nat) (J : Nat → Nat) (w y : V α) : V α :=
   fun p => gatherAt J (fun q => w ((p / B) * B + q)) y (p % B)
 
-/-- one scatter term of the 3-D projector with the slab loops of the code (`J` = clamped gather positions) -/
+/-- `_back_project` as coded (fill-0 gather): slab `k` of the volume is gathered with the indices computed for slab `k` -/
+def slabGatherFill (B ny : Nat) (I : Nat → Nat) (w y : V α) : V α :=
+  fun p => gatherFill0 ny (fun q => I ((p / B) * B + q)) (fun q => w ((p / B) * B + q)) y (p % B)
+
+/-- the seeded change C01-m2 on the coded back-projector: every slab is gathered with the indices of the first one -/
+def slabGatherFillNoOffset (B ny : Nat) (I : Nat → Nat) (w y : V α) : V α :=
+  fun p => gatherFill0 ny I (fun q => w ((p / B) * B + q)) y (p % B)
+
+/-- one scatter term of the 3-D projector AS CODED: slab loops, drop scatter, fill-0 gather -/
+def Op.scatSlabFill (B nslab np ny : Nat) (I : Nat → Nat) (w : V α) : Op α where
+  nin := np
+  nout := ny
+  eval := slabScatter B nslab np ny I w
+  adj := slabGatherFill B ny I w
+
+/-- … with the back-projector of the seeded change C01-m2 -/
+def Op.scatSlabFillNoOffset (B nslab np ny : Nat) (I : Nat → Nat) (w : V α) : Op α where
+  nin := np
+  nout := ny
+  eval := slabScatter B nslab np ny I w
+  adj := slabGatherFillNoOffset B ny I w
+
+/-- one scatter term of the 3-D projector with the slab loops and the gather of the pinned tree (`J` = clamped gather
+    positions) -/
 def Op.scatSlab (B nslab np ny : Nat) (I J : Nat → Nat) (w : V α) : Op α where
   nin := np
   nout := ny
